@@ -354,7 +354,11 @@ func cliObserve(args []string) int {
 				fo.Tables = append(fo.Tables, tabObs{Name: "!sqlite-sidecar", Rows: []rowObs{}})
 				return
 			}
-			d := dumpGpkg(filepath.Join(*dir, "out", f))
+			d, derr := dumpGpkgE(filepath.Join(*dir, "out", f))
+			if derr != nil {
+				fo.Tables = append(fo.Tables, tabObs{Name: "!unreadable", Rows: []rowObs{}})
+				return
+			}
 			names := []string{}
 			for n := range d {
 				names = append(names, n)
